@@ -4020,6 +4020,19 @@ def _gather_J_dense(
       J_c_out[worldid, efcid, cj] = J_in[worldid, efcid, j]
 
 
+@wp.kernel
+def _compact_tolerance(
+  # Model:
+  opt_tolerance: wp.array[float],
+  # In:
+  scale: float,
+  # Out:
+  ctol_out: wp.array[float],
+):
+  i = wp.tid()
+  ctol_out[i] = opt_tolerance[i] * scale
+
+
 @event_scope
 def solve_compact(m: types.Model, d: types.Data):
   """Run the dense Newton constraint solver in compacted DOF space.
@@ -4037,7 +4050,14 @@ def solve_compact(m: types.Model, d: types.Data):
   # instead of running all iterations); fall back to the plain loop on CPU.
   nvp = d.nvmax_pad
   gc = m.opt.graph_conditional and wp.get_device().is_cuda
-  opt2 = dataclasses.replace(m.opt, graph_conditional=gc, tolerance=d.ctol, ls_tolerance=d.cls_tol)
+  # The solver normalizes its termination tests by nv (here nvmax_pad): rescale the CURRENT
+  # m.opt.tolerance (possibly per world, possibly changed since make_data) by nv / nvmax_pad so
+  # that the tests match the full-model baseline.  ls_tolerance is left alone: the linesearch
+  # forms tolerance * ls_tolerance * snorm * meaninertia * nv, which the rescaled tolerance
+  # already maps onto the baseline value.
+  ctol = wp.empty(m.opt.tolerance.shape[0], dtype=float)
+  wp.launch(_compact_tolerance, dim=ctol.shape[0], inputs=[m.opt.tolerance, float(m.nv) / float(nvp)], outputs=[ctol])
+  opt2 = dataclasses.replace(m.opt, graph_conditional=gc, tolerance=ctol)
   m2 = dataclasses.replace(
     m, opt=opt2, nv=nvp, nv_pad=nvp, is_sparse=False, dof_tri_row=d.cdof_tri_row, dof_tri_col=d.cdof_tri_col
   )
